@@ -377,15 +377,18 @@ class Repo:
             except SyntaxError as e:
                 raise AnalysisError(f"cannot parse {rel}: {e}")
             if os.environ.get("TLSA_NO_LIFT") != "1":
-                from .normalise import append_loop_to_comprehension, counted_while_to_for, expand_dict_dispatch, expand_keyword_splat, fold_dict_lookup, inline_named_conditions, lambda_lift, search_loop_to_membership, unroll_table_loops
+                from .normalise import append_loop_to_comprehension, counted_while_to_for, expand_dict_dispatch, expand_keyword_splat, fill_loop_to_dict, fold_dict_lookup, inline_named_conditions, lambda_lift, lookup_else_default, search_loop_to_membership, unpack_by_attribute, unroll_table_loops
 
+                lookup_else_default(tree)
                 inline_named_conditions(tree)
                 expand_keyword_splat(tree)
+                unpack_by_attribute(tree)
                 search_loop_to_membership(tree)
                 fold_dict_lookup(tree)
                 expand_dict_dispatch(tree)
                 counted_while_to_for(tree)
                 append_loop_to_comprehension(tree)
+                fill_loop_to_dict(tree)
                 unroll_table_loops(tree)
                 lambda_lift(tree)
             is_pkg = rel.endswith("/__init__.py")
